@@ -139,6 +139,7 @@ func valuePool() []gval {
 		rInt(tyInt8, -128, int8(-128)), rInt(tyInt8, 127, int8(127)), rInt(tyInt64, 1<<53, int64(1<<53)), rInt(tyInt64, -(1 << 53), int64(-(1 << 53))),
 		rInt(tyUint64, 1<<53, uint64(1<<53)), rInt(tyUint64, 65536, uint64(65536)), rInt(tyMyInt, -7, MyInt(-7)),
 		rF64(tyMyF64, 0.1, MyF64(0.1)), rF64(tyFloat64, 1e300, 1e300), rF64(tyFloat64, 5e-324, 5e-324), rF64(tyFloat64, 0.1, 0.1),
+		notAny(rComp(tyIntSlice, false, []int(nil))), // marshals as JSON null (finding K10)
 	}
 }
 
